@@ -383,6 +383,15 @@ def spec (s : Shape) (dim size step : Int) : Option Shape :=
       if size > d then none
       else some (setAt s a (specWindows d size step).toNat ++ [size.toNat])
 
+/-- Value level: the `Gather` index matrix of the graph, `Unsqueeze(Range(0, d-(size-1), step), 1) + Unsqueeze([0..size-1], 0)`: row `w`
+(one per `Range` element `0 + w·step`) holds `w·step + j`, `j < size`. -/
+def modelIdx (d size step : Int) : List (List Int) :=
+  (List.range (windows d size step)).map (fun (w : Nat) => (List.range size.toNat).map (fun (j : Nat) => (0 + (w : Int) * step) + (j : Int)))
+
+/-- `Tensor.unfold(dim, size, step)`: window `w < (d - size)/step + 1`, element `j < size` is `x[w·step + j]`. -/
+def specIdx (d size step : Int) : List (List Int) :=
+  (List.range (specWindows d size step).toNat).map (fun (w : Nat) => (List.range size.toNat).map (fun (j : Nat) => (w : Int) * step + (j : Int)))
+
 end unfold_
 
 namespace upsample
